@@ -3,7 +3,8 @@
 (* C11: string literals of the filter language.  A string is a sequence of *)
 (* code units over the alphabet                                            *)
 (*   1 'a'  2 'n'  3 't'  4 '\'  5 '"'  6 LF  7 TAB  8 CR  9 FF  10 ' '    *)
-(*   11 'e-acute' (a two-byte character)   12 'r'  13 'f'                  *)
+(*   11 'e-acute' (a two-byte character)   12 'r'  13 'f'  14 'o'         *)
+(* (n, o, t spell a keyword of the language inside a literal)              *)
 (* Escape(s, ctl) renders s as the body of a quoted literal: backslash and *)
 (* double quote are always backslash-escaped; the four escapable control   *)
 (* characters are written as \n \t \r \f (a raw control character is not a  *)
@@ -18,7 +19,7 @@ BS == 4   QT == 5
 Ctl == {6, 7, 8, 9}
 LetterOf(c) == CASE c = 6 -> 2 [] c = 7 -> 3 [] c = 8 -> 12 [] c = 9 -> 13      \* LF -> n, TAB -> t, CR -> r, FF -> f
 CtlOf(l) == CASE l = 2 -> 6 [] l = 3 -> 7 [] l = 12 -> 8 [] l = 13 -> 9
-Units == 1..13
+Units == 1..14
 
 RECURSIVE Escape(_)
 Escape(s) == IF s = << >> THEN << >>
